@@ -217,6 +217,13 @@ CALLS2 = {
     'QXmppDiscoveryManager::clientType/0': ('callee', 'QXmppDiscoveryManager_clientType'),
     'QXmppDiscoveryManager::clientName/0': ('callee', 'QXmppDiscoveryManager_clientName'),
     'QXmppDiscoveryManager::clientCapabilitiesNode/0': ('callee', 'QXmppDiscoveryManager_clientCapabilitiesNode'),
+    'QXmppPresence::capabilityHash/0': ('callee', 'QXmppPresence_capabilityHash'),
+    'QXmppPresence::capabilityNode/0': ('callee', 'QXmppPresence_capabilityNode'),
+    'QXmppPresence::capabilityVer/0': ('callee', 'QXmppPresence_capabilityVer'),
+    'qba::isEmpty/0': ('expr', '{0} == 0'),
+    'qba::isNull/0': ('expr', '{0} == 0'),
+    'op==:qba:qba': ('expr', '{0} == {1}'),
+    'op!=:qba:qba': ('expr', '{0} != {1}'),
     'QXmppPresence::setCapabilityHash/1': ('callee', 'QXmppPresence_setCapabilityHash'),
     'QXmppPresence::setCapabilityNode/1': ('callee', 'QXmppPresence_setCapabilityNode'),
     'QXmppPresence::setCapabilityVer/1': ('callee', 'QXmppPresence_setCapabilityVer'),
@@ -242,6 +249,8 @@ class CapsLowerer(Lowerer):
         return Lowerer.ctype(self, t, node)
 
     def tkey(self, n):
+        if n.get('kind') == 'StringLiteral' and re.fullmatch(r'(const )?char16_t ?\[\d+\]', qt(n)):
+            return 'qstr'       # a u"..." literal used as a string operand
         for cand in (qt(n), dqt(n)):
             s = strip_type(cand)
             if is_builder(s):
@@ -249,6 +258,91 @@ class CapsLowerer(Lowerer):
             if s in PTR_HANDLES:
                 return PTR_HANDLES[s]
         return Lowerer.tkey(self, n)
+
+    # ---- relational operators on tuples (std::make_tuple / std::tie / std::forward_as_tuple / std::make_pair):
+    # the lexicographic comparison of the components AS WRITTEN, each compared the way std::tuple does it:
+    # x < y, then y < x, else the next component (libstdc++ __tuple_compare / __synth3way for types without <=>)
+    TUPLE_MAKERS = ('make_tuple', 'tie', 'forward_as_tuple', 'make_pair')
+    REL_MIRROR = {'<': '>', '>': '<', '<=': '>=', '>=': '<='}
+
+    def tuple_elems(self, n):
+        n = self.skip(n)
+        if n.get('kind') == 'CallExpr' and self.callee_ref(n).get('name') in self.TUPLE_MAKERS:
+            return [a for a in n['inner'][1:]]
+        return None
+
+    def lex_compare(self, sym, A, B):
+        if len(A) != len(B) or not A:
+            raise Unsupported('comparison of tuples of different / zero length')
+        def temps(elems):
+            out = []
+            for a in elems:
+                a0 = self.skip(a)
+                ct = self.ntype(a0)
+                if ct in self.p.class_types or ct.endswith('*'):
+                    raise Unsupported('tuple component of type %s in a comparison' % ct)
+                t = self.newtmp()
+                self.pre.append('%s %s = %s;' % (ct, t, self.expr(a0)))
+                out.append((t, ct))
+            return out
+        ta, tb = temps(A), temps(B)
+
+        def lt(x, y, ct):
+            return 'qstr_lt(%s, %s)' % (x, y) if ct in self.p.string_types else '(%s < %s)' % (x, y)
+
+        def lex(xs, ys):
+            e = 'false'
+            for (x, cx), (y, cy) in reversed(list(zip(xs, ys))):
+                if cx != cy:
+                    raise Unsupported('tuple components of different types %s / %s in a comparison' % (cx, cy))
+                e = '(%s || (!%s && %s))' % (lt(x, y, cx), lt(y, x, cx), e)
+            return e
+        self.fire('tuple-compare:%s/%d' % (sym, len(A)))
+        return {'<': lex(ta, tb), '>': lex(tb, ta), '<=': '(!%s)' % lex(tb, ta), '>=': '(!%s)' % lex(ta, tb)}[sym]
+
+    def rewritten_compare(self, n):
+        """C++20: a < b on tuples is rewritten by the compiler to (a <=> b) < 0 (or 0 < (b <=> a)); clang's AST carries the rewritten form"""
+        op = self.skip(n['inner'][0])
+        if op.get('kind') != 'CXXOperatorCallExpr':
+            raise Unsupported('CXXRewrittenBinaryOperator over %s' % op.get('kind'))
+        sym = self.callee_ref(op).get('name', '').replace('operator', '')
+        if sym not in self.REL_MIRROR:
+            raise Unsupported('rewritten operator %s' % sym)
+        ops = [self.skip(x) for x in op['inner'][1:]]
+
+        def is3way(x):
+            return x.get('kind') == 'CXXOperatorCallExpr' and self.callee_ref(x).get('name') == 'operator<=>'
+
+        def iszero(x):
+            while x.get('kind') != 'IntegerLiteral' and len([c for c in x.get('inner', []) if isinstance(c, dict)]) == 1:
+                x = [c for c in x['inner'] if isinstance(c, dict)][0]
+            return x.get('kind') == 'IntegerLiteral' and x.get('value') == '0'
+        if len(ops) == 2 and is3way(ops[0]) and iszero(ops[1]):
+            cmp3 = ops[0]
+        elif len(ops) == 2 and is3way(ops[1]) and iszero(ops[0]):
+            cmp3, sym = ops[1], self.REL_MIRROR[sym]
+        else:
+            raise Unsupported('rewritten comparison that is not (a <=> b) op 0')
+        x, y = cmp3['inner'][1:]
+        A, B = self.tuple_elems(x), self.tuple_elems(y)
+        if A is None or B is None:
+            raise Unsupported('rewritten comparison of operands that are not std::make_tuple / std::tie expressions')
+        return self.lex_compare(sym, A, B)
+
+    def expr(self, n):
+        n0 = self.skip(n)
+        if n0.get('kind') == 'CXXRewrittenBinaryOperator':
+            return self.rewritten_compare(n0)
+        return Lowerer.expr(self, n)
+
+    def opcall(self, n):
+        sym = self.callee_ref(n).get('name', '').replace('operator', '')
+        ops = n['inner'][1:]
+        if sym in self.REL_MIRROR and len(ops) == 2:
+            A, B = self.tuple_elems(ops[0]), self.tuple_elems(ops[1])
+            if A is not None and B is not None:
+                return self.lex_compare(sym, A, B)       # C++17 form: operator< of std::tuple called directly
+        return Lowerer.opcall(self, n)
 
     def cast(self, n):
         if n.get('castKind') == 'PointerToBoolean':
